@@ -365,3 +365,19 @@ fn c07_parent_walk_skips_every_rejected_ancestor_however_many_in_a_row() { walk_
 #[kani::unwind(7)]
 #[kani::stub(core::fmt::Formatter::pad, pad_stub)]
 fn c07_scope_walk_skips_every_rejected_ancestor_however_many_in_a_row() { walk_body(1) }
+
+// the same with the global layer BELOW the filtered one (`registry().with(global).with(layer.with_filter(f))`): the veto
+// then comes from a Layered node whose own layer is NOT per-layer-filtered, after the filtered layer above it has already
+// written its bit - the bitmap must be empty again all the same, and the NEXT emission must be judged afresh
+#[kani::proof]
+#[kani::unwind(4)]
+#[kani::stub(core::fmt::Formatter::pad, pad_stub)]
+#[kani::stub(sharded_slab::Pool::clear, stub_pool_clear)]
+fn c07_stack_global_filter_below_a_filtered_layer_vetoes_and_clears() {
+    let fa = VFil::any(); let g: bool = nd();
+    let stack = VRoot::empty().with(VRec { i: 1, global_enabled: g, interest: 1, hint: 6 }).with(VRec::plain(0).with_filter(fa));
+    emit_event(&stack);
+    assert!(vseen(0, VK_EVENT) == (g && fa.enabled && fa.ev_enabled) as usize, "C07.stack.global_below.filtered_layer_receives_iff_global_and_own_filter_accept");
+    assert!(thread_bits() == 0, "C07.stack.global_below.I7_bitmap_empty_after_veto_or_delivery");
+    kani::cover!(!g && !fa.enabled, "C07.reachable.global_veto_after_the_filter_rejected");
+}
